@@ -54,6 +54,15 @@ structure DState where
 
 def showBool (b : Bool) : String := if b then "1" else "0"
 
+def showAvErr : AvErr → String
+  | .compare => "AwesomeVersionCompareException"
+  | .value => "ValueError"
+  | .index => "IndexError"
+
+def showStrategy : AvStrategy → String
+  | .buildVer => "BuildVer" | .calVer => "CalVer" | .hexVer => "HexVer" | .semVer => "SemVer"
+  | .specialContainer => "SpecialContainer" | .simpleVer => "SimpleVer" | .pep440 => "PEP440" | .unknown => "unknown"
+
 def showExn : Exn → String
   | .lib .invalidMessage => "err invalidMessage"
   | .lib (.missingNode n) => s!"err missingNode {n}"
@@ -117,8 +126,24 @@ def stepCore (st : DState) (line : String) : DState × String :=
     | some s => (st, match pyInt? s with | some n => s!"ok {n}" | none => "invalid")
     | none => (st, "bad-op")
   | ["sel", s] =>
+    -- `get_protocol(s)`: the protocol or the exception class (exact model, `IndexError` included)
     match decodeStr s with
-    | some s => (st, match getProtocol? s with | some v => "ok " ++ verStr v | none => "rejected")
+    | some s => (st, match getProtocolX s with | .ok v => "ok " ++ verStr v | .error e => "exc " ++ showAvErr e)
+    | none => (st, "bad-op")
+  | ["avs", s] =>
+    -- awesomeversion view of `s`: strategy, then `AwesomeVersion(s) < AwesomeVersion(key)` for every key, newest first
+    match decodeStr s with
+    | some s =>
+      let str := avString (avNorm s)
+      let strat := avStrategy str
+      (st, showStrategy strat ++ String.join (keysDesc.map fun k =>
+        " " ++ match avLtKeyOf str strat k.2.1 k.2.2 with
+          | .ok true => "T" | .ok false => "F" | .error e => showAvErr e))
+    | none => (st, "bad-op")
+  | ["selr", s] =>
+    -- the release-grammar definition (`getProtocolRelease?`)
+    match decodeStr s with
+    | some s => (st, match getProtocolRelease? s with | some v => "ok " ++ verStr v | none => "none")
     | none => (st, "bad-op")
   | ["flt", s] =>
     match decodeStr s with
